@@ -16,7 +16,7 @@ FUNCTIONS = ["solvor.articulation.articulation_points", "solvor.articulation.bri
              "solvor.pagerank.pagerank", "solvor.pagerank.pagerank_edges[python]", "solvor.community.louvain"]
 BOUNDS = {
     "quick": "articulation/bridges/kcore: every undirected graph on 4 nodes (64) under 3 node orders x 2 neighbour orders and on 5 nodes (1024) "
-             "under 1 order, symmetric neighbour lists, with self-loop / duplicate-neighbour / outside-neighbour variants on 4 nodes, kcore(k) "
+             "under 1 order, symmetric neighbour lists (kcore also with each edge listed by one endpoint only), with self-loop / duplicate-neighbour / outside-neighbour variants on 4 nodes, kcore(k) "
              "for symbolic k; pagerank: every loop-free digraph on 3 nodes (64) + 8 named 3-4 node digraphs with self loops, duplicate links and "
              "dangling nodes, damping in (0,1) and tol>=1e-12 symbolic, max_iter 2; louvain: every graph on 4 nodes + 6 named 5-6 node graphs, resolution>0 symbolic",
     "thorough": "graphs on 5 nodes under 3 orders; pagerank max_iter 3 and all 512 digraphs on 3 nodes with self loops; louvain every graph on 5 nodes",
@@ -73,7 +73,7 @@ def core_numbers(n, edges):
     return core
 
 
-def h_struct(s, func, n, pot, order, rev=False, dup=False, labels=False, outside=0):
+def h_struct(s, func, n, pot, order, rev=False, dup=False, labels=False, outside=0, asym=None):
     """pot: potential undirected edges (u,v) u<=v over range(n+outside)."""
     N = n + outside
     p = {e: s.bool("e%d_%d" % e) for e in pot}
@@ -84,6 +84,11 @@ def h_struct(s, func, n, pot, order, rev=False, dup=False, labels=False, outside
         u = inv[x]
         lst = []
         for (a, b) in pot:
+            # asym: each undirected edge is listed by ONE endpoint only ("low": the smaller label, "high": the larger, "mix": alternating)
+            if asym is not None and a != b:
+                lister = a if asym == "low" else (b if asym == "high" else (a if (a + b) % 2 else b))
+                if u != lister:
+                    continue
             if a == u:
                 lst.append(((a, b), b))
             elif b == u:
@@ -270,6 +275,12 @@ def items(tier, rng):
                             "params": {"func": func, "n": 4, "pot": und(4), "order": order, "rev": rev, "labels": rev and order[0] == 2}})
         out.append({"name": "%s_4loops" % func, "harness": "h_struct", "split": 5,
                     "params": {"func": func, "n": 4, "pot": und(4, True), "order": [1, 3, 0, 2]}})
+        if func in ("kcore", "kcore_k"):
+            # kcore symmetrises its input: asymmetric neighbour lists are valid input for it (the property's quantifier names them)
+            for asym in ("low", "high", "mix"):
+                for order in ([0, 1, 2, 3], [3, 1, 0, 2]):
+                    out.append({"name": "%s_4asym" % func, "harness": "h_struct",
+                                "params": {"func": func, "n": 4, "pot": und(4), "order": order, "asym": asym}})
         out.append({"name": "%s_4dup" % func, "harness": "h_struct", "params": {"func": func, "n": 4, "pot": und(4), "order": [0, 1, 2, 3], "dup": True}})
         out.append({"name": "%s_3out" % func, "harness": "h_struct",
                     "params": {"func": func, "n": 3, "pot": und(3) + [(0, 3), (2, 3)], "order": [0, 1, 2], "outside": 1}})
